@@ -243,10 +243,10 @@ def job_emin(version):
 
 def jobs(tier, seed):
     out = [("k1", "job_kin", {"N": 1, "tier": tier}), ("d1", "job_decay", {"N": 1, "tier": tier}), ("d2", "job_decay", {"N": 2, "tier": tier}),
-           ("chain1", "job_chain", {"N": 1, "tier": tier})]
+           ("chain1", "job_chain", {"N": 1, "tier": tier}),
+           ("chain2", "job_chain", {"N": 2, "tier": tier})]  # (batches that mix a non-exiting tau with a sampled one need two events)
     if tier == "thorough":
         out.append(("k2", "job_kin", {"N": 2, "tier": tier}))
-        out.append(("chain2", "job_chain", {"N": 2, "tier": tier}))
     for v in "123":
         out.append((f"emin{v}", "job_emin", {"version": v}))
     return out
